@@ -380,9 +380,10 @@ type c20Press struct {
 	Writers []c20PWriter `json:"writers"`
 	Hammers []c20Hammer  `json:"hammers"`
 	Pos     [2][]vfFD    `json:"pos"`
+	Block   bool         `json:"block,omitempty"`
 }
 
-var c20HammerKinds = []string{"setrel", "thresh", "onlow", "buffered", "state", "wdl", "rdl", "abuffered", "getters", "maxmsg", "smallwrite"}
+var c20HammerKinds = []string{"setrel", "thresh", "onlow", "buffered", "state", "wdl", "rdl", "abuffered", "getters", "maxmsg", "smallwrite", "closestream"}
 
 func genC20Press(rt *rapid.T) c20Press {
 	var x c20Press
@@ -399,6 +400,25 @@ func genC20Press(rt *rapid.T) c20Press {
 		x.Writers = append(x.Writers, c20PWriter{Side: rapid.IntRange(0, 1).Draw(rt, "wside"), St: rapid.IntRange(0, ns-1).Draw(rt, "wst"),
 			N: rapid.IntRange(20, 150).Draw(rt, "wn"), Size: rapid.SampledFrom([]int{8, 100, 1200}).Draw(rt, "wsize"),
 			Burst: rapid.SampledFrom([]int{0, 1, 5, 20}).Draw(rt, "wburst"), SleepUs: rapid.SampledFrom([]int{100, 1000, 3000}).Draw(rt, "wsleep")})
+	}
+	// blocking writes against a small peer window: writers park inside Write again and again
+	if rapid.IntRange(0, 2).Draw(rt, "block") == 0 {
+		x.Block = true
+		for i := 0; i < 2; i++ {
+			x.Cfg[i].Block = true
+			x.Cfg[i].RBuf = rapid.SampledFrom([]int{3000, 8000, 30000}).Draw(rt, "brbuf")
+		}
+		// one writer per (side, stream): a second one would wait for the first on a plain mutex,
+		// which synctest does not count as blocked (virtual time would stand still)
+		seen := map[[2]int]bool{}
+		var ws []c20PWriter
+		for _, w := range x.Writers {
+			if k := [2]int{w.Side, w.St}; !seen[k] {
+				seen[k] = true
+				ws = append(ws, w)
+			}
+		}
+		x.Writers = ws
 	}
 	nh := rapid.IntRange(1, 5).Draw(rt, "nhammers")
 	for i := 0; i < nh; i++ {
@@ -444,6 +464,8 @@ func runC20Press(t *testing.T, x c20Press, verbose bool) vfCase {
 			}
 			var wg sync.WaitGroup
 			done := false
+			var closedMu sync.Mutex
+			closed := map[[2]int]bool{}
 			for _, w := range x.Writers {
 				w := w
 				wg.Add(1)
@@ -453,7 +475,12 @@ func runC20Press(t *testing.T, x c20Press, verbose bool) vfCase {
 					b := vfPayload(4242, w.Size)
 					for i := 0; i < w.N; i++ {
 						if _, err := st.WriteSCTP(b, PayloadTypeWebRTCBinary); err != nil {
-							fail("write-error", "write failed: %v", err)
+							closedMu.Lock()
+							cl := closed[[2]int{w.Side, w.St}]
+							closedMu.Unlock()
+							if !cl {
+								fail("write-error", "write failed: %v", err)
+							}
 							return
 						}
 						if w.Burst > 0 && i%w.Burst == w.Burst-1 {
@@ -514,8 +541,20 @@ func runC20Press(t *testing.T, x c20Press, verbose bool) vfCase {
 						case "maxmsg":
 							a.SetMaxMessageSize(65536)
 							_ = a.MaxMessageSize()
+						case "closestream":
+							// once, in the middle of the run: the stream is closed under its writers' feet
+							if i == h.N/2 {
+								closedMu.Lock()
+								closed[[2]int{h.Side, h.St}] = true
+								closedMu.Unlock()
+								_ = st.Close()
+							} else {
+								_ = st.State()
+							}
 						case "smallwrite":
-							if i%16 == 0 {
+							if x.Block {
+								_ = st.BufferedAmount() // (see genC20Press: one writer per stream in blocking mode)
+							} else if i%16 == 0 {
 								_, _ = st.WriteSCTP(vfPayload(77, 8), PayloadTypeWebRTCBinary)
 							}
 						}
@@ -556,6 +595,9 @@ func runC20Press(t *testing.T, x c20Press, verbose bool) vfCase {
 	}
 	if sameStream {
 		c.class("hammer-on-written-stream")
+	}
+	if x.Block {
+		c.class("blocking-writes")
 	}
 	c.Nontrivial = sameStream && len(kinds) >= 2
 	if (c.Verdict != "" || verbose) && out.sim != nil {
